@@ -5,6 +5,8 @@ from __future__ import annotations
 import random
 
 from .. import gen
+
+gen.WIDE_RATE = 0   # wide (~100 operation) instances: too costly here / not needed
 from ..drive import Run, gen_history_case
 from . import _snap
 
@@ -104,8 +106,10 @@ def invalid_requests(run, rng):
             out.append(("ineligible_machine", o, rng.choice(inel)))
         out.append(("machine_out_of_range", o, M))
         out.append(("machine_out_of_range", o, M + 1000))
-        if (M - 1) not in r.op_machines[o]:
-            out.append(("machine_minus_one", o, -1))
+        out.append(("machine_minus_one", o, -1))
+        # negative ids that would wrap around to an eligible machine are out of range all the same
+        wrap = [mm - M for mm in r.op_machines[o]]
+        out.append(("machine_negative_wrapping_to_eligible", o, rng.choice(wrap)))
         out.append(("machine_out_of_range", o, -M - 1))
         if len(r.op_machines[o]) > 1:
             out.append(("none_machine_flexible", o, None))
@@ -306,6 +310,7 @@ def run_env_case(ctx, case):
                 if inel:
                     bad.append(("env_ineligible_machine", (j, rng.choice(inel))))
                 bad.append(("env_machine_out_of_range", (j, M)))
+                bad.append(("env_machine_out_of_range", (j, -2)))
                 if len(r.op_machines[o]) > 1:
                     bad.append(("env_minus_one_flexible", (j, -1)))
         bad.append(("env_job_out_of_range", (J, -1)))
@@ -382,6 +387,7 @@ def run_multi_env_case(ctx, case):
                     # ids beyond this episode's instance (it may be smaller than the maximum size)
                     bad.append(("env_machine_out_of_range", (j, M)))
                     bad.append(("env_machine_out_of_range", (j, M + 1)))
+                    bad.append(("env_machine_out_of_range", (j, -2)))
             bad.append(("env_job_out_of_range", (J, -1)))
             for kind, action in bad:
                 inner = env.single_job_shop_graph_env
